@@ -69,6 +69,22 @@ class C18(PropertyCheck):
                 return
             seen.add(body)
             cases.append(Case(f'{kind}|{body}', kind, body, coq, 'str', '', {'nt': nt}, None, expect))
+        # mixed-width records: wide characters first, then ASCII fields with separators, searched / split from a start > 0
+        # (byte offsets and character offsets drift apart only on such strings)
+        for _ in range(60 if tier == 'quick' else 600):
+            wide = ''.join(rng.choice(['日', '本', '語', 'é', '€', '\U0001F600', 'ß']) for _ in range(rng.randint(1, 5)))
+            sep = rng.choice([',', ';', '::', '→'])
+            fields = [''.join(rng.choice('abcxyz') for _ in range(rng.randint(0, 4))) for _ in range(rng.randint(2, 4))]
+            s = wide + sep + sep.join(fields) + rng.choice(['', 'é', '日本'])
+            L = len(s)
+            st = rng.randint(1, L - 1)
+            k = s.find(sep, st)
+            add('find-mixed', f'to_str(({q(s)}).find({q(sep)}, {st}))', f'roz (s_find ({cq(s)}) ({cq(sep)}) ({st}))', str(k) if k >= 0 else 'None', True)
+            add('split-mixed', f'to_str(({q(s)}).split({q(sep)}).map((p: str)->{{p{CPS}}}).to_array())', f'rlfs (x_split ({cq(s)}) ({cq(sep)}))',
+                '[' + ', '.join(pycps(p) for p in s.split(sep)) + ']', True)
+            new = rng.choice(['', '|', 'é'])
+            add('replace-mixed', f'to_str(({q(s)}).replace({q(sep)}, {q(new)}){CPS})', f'rfs (x_replace ({cq(s)}) ({cq(sep)}) ({cq(new)}))', pycps(s.replace(sep, new)), True)
+            add('contains-mixed', f'to_str(({q(s)}).contains({q(sep)}, {st}))', None, 'true' if k >= 0 else 'false', True)
         for _ in range(n):
             s = rand_str(rng)
             na = not s.isascii()
